@@ -766,6 +766,15 @@ def st_For(ex, node, st):
         if view.keys is not None:
             s.env["_keys"] = view.keys
             s.env[f"_keys{idx}"] = view.keys
+        if spec.get("over"):
+            # the specification names the sequence this loop scans: the iterated view is, position by position, that sequence
+            # (so a loop re-headed onto ANOTHER sequence fails a named obligation instead of silently losing its invariants)
+            ov = spec["over"]
+            ovv = ex.iter_view(ex.ev1(ast.parse(ov, mode="eval").body, s.fork()), s)
+            s.assume(*ovv.facts)
+            oj = smt.fresh_int("oj")
+            g = z3.And(view.len == ovv.len, z3.ForAll([oj], z3.Implies(z3.And(0 <= oj, oj < view.len), to_v(view.at(oj), s) == to_v(ovv.at(oj), s))))
+            ex.oblige(f"{lname}.over", "inv-init", s, g, {"clause": f"loop {idx} scans `{ov}` in order"}, aux=True)
         for k, inv in enumerate(invs):
             g = ex.eval_clause(inv, s)
             ex.oblige(f"{lname}.inv{k}.init", "inv-init", s, g, {"clause": inv}, aux=True)
